@@ -183,6 +183,77 @@ class Body:
             self._dflags = cand
         return self._dflags
 
+    # ---- def/use
+    def defs(self):
+        """local -> [(bb, 'stmt'|'call', rvalue-or-terminator)] for whole-local definitions"""
+        if getattr(self, '_defs', None) is None:
+            d = {}
+            for b in range(len(self.blocks)):
+                if self.blocks[b].get('cleanup'):
+                    continue
+                for st in self.blocks[b]['stmts']:
+                    if st['k'] == 'assign' and not st['lhs']['p']:
+                        d.setdefault(st['lhs']['l'], []).append((b, 'stmt', st['rv']))
+                t = self.blocks[b]['term']
+                if t['k'] == 'call' and not t['dest']['p']:
+                    d.setdefault(t['dest']['l'], []).append((b, 'call', t))
+            self._defs = d
+        return self._defs
+
+    THROUGH = ('deref', 'deref_mut', 'as_ref', 'as_mut', 'borrow', 'borrow_mut', 'as_slice', 'as_mut_slice',
+               'as_path', 'as_str', 'clone', 'into_iter', 'iter', 'iter_mut', 'by_ref')
+
+    def root(self, l, through=None, stop_named=True, maxsteps=40):
+        """follow single-definition temporaries back to the local they were copied/borrowed/derefed from.
+        returns (root_local, projections-met (list of proj lists), callee names passed through)"""
+        through = self.THROUGH if through is None else through
+        projs, via = [], []
+        for _ in range(maxsteps):
+            if stop_named and self.name_of(l) and l > self.arg_count:
+                break
+            ds = self.defs().get(l, [])
+            if len(ds) != 1:
+                break
+            b, kind, x = ds[0]
+            if kind == 'stmt':
+                pl = None
+                if 'use' in x:
+                    pl = op_place(x['use'])
+                elif 'ref' in x:
+                    pl = x['ref']
+                elif 'rawptr' in x:
+                    pl = x['rawptr']
+                elif 'cast' in x:
+                    pl = op_place(x['a'])
+                if pl is None:
+                    break
+                if pl['p']:
+                    projs.append(pl['p'])
+                l = pl['l']
+                continue
+            else:
+                nm = cname(x)
+                if nm in through and x['args']:
+                    pl = op_place(x['args'][0])
+                    if pl is None:
+                        break
+                    via.append(nm)
+                    if pl['p']:
+                        projs.append(pl['p'])
+                    l = pl['l']
+                    continue
+                break
+        return l, projs, via
+
+    def op_root(self, op, **kw):
+        pl = op_place(op)
+        if pl is None:
+            return None, [], []
+        r, projs, via = self.root(pl['l'], **kw)
+        if pl['p']:
+            projs = [pl['p']] + projs
+        return r, projs, via
+
     # ---- CFG (normal edges only: unwind edges and cleanup blocks are ignored)
     def term(self, bb):
         return self.blocks[bb]['term']
@@ -632,6 +703,8 @@ def simp(t):
             return base[4][t[2]]
         if base[0] == 'tuple' and isinstance(t[2], int) and t[2] < len(base[1]):
             return base[1][t[2]]
+        if base[0] == 'bin' and base[1].endswith('WithOverflow') and t[2] == 0:
+            return simp(('bin', base[1][:-len('WithOverflow')], base[2], base[3]))
     if k == 'downcast':
         base = t[1]
         if base[0] == 'variant':
